@@ -52,6 +52,13 @@ def _map_sub_events(args):
                         lambda a=a, b=b, rs=rs: l.relative_interval_to_parent_location(a, b, strands[rs]))])
         entries.append([-1, 1, "+", E.loc_outcome(lambda: l.relative_interval_to_parent_location(-1, 1, Strand.PLUS))])
         ev.append(["sub", [blocks, st], kind, entries])
+        if n % 2 == 0:
+            wins = []
+            for (w, step, p0) in [(1, 1, 0), (2, 1, 0), (2, 3, 1), (ln, 1, 0), (max(1, ln - 1), 2, 1), (1, 2, ln - 1),
+                                  (0, 1, 0), (1, 0, 0), (ln + 1, 1, 0), (1, 1, ln), (2, 1, -1)]:
+                wins.append([w, step, p0, E.outcome(
+                    lambda w=w, step=step, p0=p0: [["v", E.loc(x), E.pid(x)] for x in l.scan_windows(w, step, p0)])])
+            ev.append(["scanw", [blocks, st], kind, wins])
     return ev
 
 
